@@ -1,5 +1,6 @@
 import DoltVerif.Lemmas.ProllyMergeSendR2
 import DoltVerif.Lemmas.ProllyMergeAdd1
+import DoltVerif.Lemmas.ProllyMergeAddN
 import DoltVerif.Props.C13
 /-!
 C14 — Three-way tree merges follow key-wise merge semantics.
@@ -759,6 +760,54 @@ theorem patch_merge_refines_empty_base_height1 {cmp : Bytes → Bytes → Orderi
   patch_merge_refines_of_gens ol hexact collide store (.leaf []) left right (by simp [Sorted, Tree.flatten]) sl sr
     (fun fuel ld h1 => R1_empty_base_height1 ol store fuel left hl kl sl hhl ld h1)
     (fun fuel rd h2 => R1_empty_base_height1 ol store fuel right hr kr sr hhr rd h2) content ps cs h
+
+/-- **R1_empty_base** (proved — R1 for the empty base and a tree of ANY height): the generator built by
+`PatchGeneratorFromRoots` for `empty → x` has a `GenSound` invariant.  The `to` cursor is an in-bounds path
+in `x`; with `x.flatten = D ++ I ++ A` (pairs before / of / after the cursor's current item) a patch at
+level > 0 is `(lastKey D, key] ↦ item subtree` (its address resolves in the store, its last key is the slot
+key), at level 0 the item's pair; `Next` climbs while at a node's end and advances (`D := D ++ I`, nothing of
+`x` lies between), `split` pushes the item's child (`D` unchanged) — at every level, so nested splits of
+range patches into lower range patches are covered. -/
+theorem R1_empty_base {cmp : Bytes → Bytes → Ordering} (ol : OrdLaws cmp) (store : Addr → Option Tree) (fuel : Nat)
+    (x : Tree) (hx : x.WF store) (kx : x.KeysOK) (sx : Sorted cmp x.flatten) (d : PG)
+    (hd : pgFromRoots (.leaf []) x = .ok d) :
+    ∃ Inv, GenSound cmp store fuel (Tree.leaf []).flatten x.flatten Inv ∧ Inv d .start := by
+  by_cases hc : x.count = 0
+  · cases x with
+    | node cs =>
+      simp only [Tree.WF] at hx
+      simp only [Tree.count] at hc
+      exact absurd (List.length_eq_zero_iff.mp hc) hx.1
+    | leaf kvs =>
+      simp only [Tree.flatten] at sx ⊢
+      exact R1_leaf ol fuel [] kvs (by simp [Sorted]) sx d hd store
+  · have hpos : 0 < x.count := Nat.pos_of_ne_zero hc
+    refine ⟨AddInvN x, ?_, ?_⟩
+    · simp only [Tree.flatten]
+      exact addN_genSound ol hx kx sx hpos fuel
+    · have h0 : (Tree.leaf ([] : List KV)).count = 0 := rfl
+      simp [pgFromRoots, h0, hc, descendTo, level, bind, Except.bind, pure, Except.pure] at hd
+      exact hd.symm
+
+/-- **patch_merge_refines_empty_base** (proved, unconditional, all heights): for the empty base and ANY two
+well-formed sorted trees, under a byte-exact key order, `ThreeWayMerge` (two range-patch generators,
+`SendPatches` with all its range branches, `ApplyPatches`) returns a strictly ascending content that maps
+every key to the key-wise merge, and hands the handler exactly the merge's collisions in key order. -/
+theorem patch_merge_refines_empty_base {cmp : Bytes → Bytes → Ordering} (ol : OrdLaws cmp)
+    (hexact : ∀ a b, cmp a b = .eq → a = b) (collide : Collide) (store : Addr → Option Tree) (left right : Tree)
+    (hl : left.WF store) (hr : right.WF store) (kl : left.KeysOK) (kr : right.KeysOK)
+    (sl : Sorted cmp left.flatten) (sr : Sorted cmp right.flatten)
+    (content : List KV) (ps : List Patch) (cs : List Collision)
+    (h : threeWayMerge cmp collide (.leaf []) left right = .ok (content, ps, cs)) :
+    Sorted cmp content ∧
+    (∀ k, lookupKV cmp k content =
+      (mergeKey collide (lookupKV cmp k (Tree.leaf []).flatten) (lookupKV cmp k left.flatten) (lookupKV cmp k right.flatten)).1) ∧
+    (∀ c, c ∈ cs ↔ ∃ k, (mergeKey collide (lookupKV cmp k (Tree.leaf []).flatten) (lookupKV cmp k left.flatten)
+      (lookupKV cmp k right.flatten)).2 = some c) ∧
+    cs.Pairwise (fun c1 c2 => cmp c1.left.key c2.left.key = .lt) :=
+  patch_merge_refines_of_gens ol hexact collide store (.leaf []) left right (by simp [Sorted, Tree.flatten]) sl sr
+    (fun fuel ld h1 => R1_empty_base ol store fuel left hl kl sl ld h1)
+    (fun fuel rd h2 => R1_empty_base ol store fuel right hr kr sr rd h2) content ps cs h
 
 /-! ### statements that are compared by the harness, not proved -/
 
